@@ -100,6 +100,50 @@ pub fn coq_ids(b: &[u32]) -> String {
 pub fn coq_usizes(b: &[usize]) -> String {
     format!("[{}]", b.iter().map(|x| x.to_string()).collect::<Vec<_>>().join(";"))
 }
+/// `[n+1; ids..]` per `Some(ids)`, `[0]` per `None`, concatenated: the argument of `unflat`.
+pub fn coq_unflat<T: std::fmt::Display>(items: &[Option<Vec<T>>]) -> String {
+    let mut out: Vec<String> = Vec::new();
+    for it in items {
+        match it {
+            None => out.push("0".to_string()),
+            Some(v) => {
+                out.push((v.len() + 1).to_string());
+                out.extend(v.iter().map(|x| x.to_string()));
+            }
+        }
+    }
+    format!("(unflat [{}])", out.join(";"))
+}
+
+/// A vocabulary as `keyed_vocab sfx [first chars] [ids] ++ .. ++ [explicit entries]`: entries
+/// are grouped by the key's tail after its first char; groups of at least 8 are written flat.
+pub fn coq_vocab(v: &[(String, u32)]) -> String {
+    let mut groups: BTreeMap<String, Vec<(u32, u32)>> = BTreeMap::new();
+    let mut rest: Vec<String> = Vec::new();
+    for (k, id) in v {
+        let mut cs = k.chars();
+        match cs.next() {
+            Some(c) => groups.entry(cs.as_str().to_string()).or_default().push((c as u32, *id)),
+            None => rest.push(format!("({},{})", coq_str(k), id)),
+        }
+    }
+    let mut parts: Vec<String> = Vec::new();
+    for (tail, es) in groups {
+        if es.len() >= 8 {
+            let cs: Vec<String> = es.iter().map(|e| e.0.to_string()).collect();
+            let ids: Vec<String> = es.iter().map(|e| e.1.to_string()).collect();
+            parts.push(format!("keyed_vocab {} [{}] [{}]", coq_str(&tail), cs.join(";"), ids.join(";")));
+        } else {
+            for (c, id) in es {
+                let key: String = std::iter::once(char::from_u32(c).unwrap()).chain(tail.chars()).collect();
+                rest.push(format!("({},{})", coq_str(&key), id));
+            }
+        }
+    }
+    parts.push(coq_list(&rest));
+    parts.join(" ++ ")
+}
+
 pub fn coq_list(items: &[String]) -> String {
     format!("[{}]", items.join(";"))
 }
@@ -239,10 +283,7 @@ impl Spec {
         let merges: Vec<String> = self.merges.iter().map(|(a, b)| format!("({},{})", coq_str(a), coq_str(b))).collect();
         let vocab = match self.explicit_vocab() {
             None => "None".to_string(),
-            Some(v) => format!(
-                "Some {}",
-                coq_list(&v.iter().map(|(s, id)| format!("({},{})", coq_str(s), id)).collect::<Vec<_>>())
-            ),
+            Some(v) => format!("Some ({})", coq_vocab(&v)),
         };
         let added: Vec<String> = self.added.iter().map(|(id, s)| format!("({},{})", id, coq_bytes(s.as_bytes()))).collect();
         let eow = match &self.eow {
